@@ -34,12 +34,12 @@ def smooth_case(draw):
     nf, nd = len(fg["f"]), dg["n"] - drop
     fw = draw(st.sampled_from([w for w in range(1, max(nf, 1) + 1, 2)]))
     dw = draw(st.sampled_from([w for w in range(1, max(nd, 1) + 1, 2)]))
-    return dict(fg=fg, dg=dg, dims=dims, specs=specs, dtype=draw(st.sampled_from(["float64", "float32"])), lived=draw(gen.lived()), fw=fw, dw=dw, drop=drop,
+    return dict(fg=fg, dg=dg, dims=dims, specs=specs, dtype=draw(st.sampled_from(["float64", "float32"])), lived=draw(gen.lived()), perm=draw(gen.perms()), fw=fw, dw=dw, drop=drop,
                 drop_at=draw(st.integers(0, dg["n"] - 1)), shift=draw(st.integers(1, max(1, dg["n"] - 1))), even=draw(st.sampled_from([None, None, None, "freq", "dir", "both"])))
 
 
 def build(case):
-    da = gen.build_dataarray(case["fg"], case["dg"], case["specs"], case["dims"], dtype=case["dtype"], lived=case.get("lived"))
+    da = gen.build_dataarray(case["fg"], case["dg"], case["specs"], case["dims"], dtype=case["dtype"], lived=case.get("lived"), perm=case.get("perm"))
     if case["drop"]:
         asc = sorted(case["dg"]["d"])
         n = len(asc)
